@@ -35,7 +35,9 @@ pub const RECOGNISED: [(&str, u8); 21] = [
     ("app7/update.spec", 0x34),
     ("app7/update.tar.gz", 0x35),
 ];
-pub const UNRELATED: [&str; 5] = ["firmware/readme.txt", "app8/update.spec", "kernel.gz", "app0/update.tar", "firmware/rootfs.gz.bak"];
+/// unrelated directory entries; the last four are plain FILES named like recognised subdirectories (created only when no
+/// recognised file of the case lives in that subdirectory)
+pub const UNRELATED: [&str; 9] = ["firmware/readme.txt", "app8/update.spec", "kernel.gz", "app0/update.tar", "firmware/rootfs.gz.bak", "app3", "app7", "firmware", "app0"];
 
 #[derive(Serialize, Deserialize, Clone, Debug)]
 pub struct FileSpec {
@@ -116,9 +118,13 @@ pub fn check_upload(t: &Table, c: &UploadCase) -> CheckResult {
     // build the payload directory
     let dir = tempfile::Builder::new().prefix("zvtverif-c11-").tempdir().map_err(|e| Violation::new("upload", "C11 kind=harness-io".to_string(), e.to_string(), input.clone()))?;
     let mut present: std::collections::BTreeMap<u8, Vec<u8>> = Default::default();
-    for f in &c.files {
+    // recognised files first, then the unrelated entries (a stray file named like a subdirectory only if that name is free)
+    for f in c.files.iter().filter(|f| f.which < 100).chain(c.files.iter().filter(|f| f.which >= 100)) {
         let rel = if f.which < 100 { RECOGNISED[f.which % 21].0 } else { UNRELATED[(f.which - 100) % UNRELATED.len()] };
         let p = dir.path().join(rel);
+        if f.which >= 100 && (p.exists() || p.parent().map(|d| d.is_file()).unwrap_or(false)) {
+            continue;
+        }
         std::fs::create_dir_all(p.parent().unwrap()).ok();
         let data = content(f.seed, f.size);
         std::fs::write(&p, &data).map_err(|e| Violation::new("upload", "C11 kind=harness-io".to_string(), e.to_string(), input.clone()))?;
@@ -390,7 +396,7 @@ pub fn upload_case_strategy(max_size: usize) -> BoxedStrategy<UploadCase> {
         2 => 1u32..=600,
     ];
     let strat = block.prop_flat_map(move |block| {
-        let file = (prop_oneof![6 => 0usize..21, 1 => 100usize..105], size_strategy(block, max_size), any::<u8>()).prop_map(|(which, size, seed)| FileSpec { which, size, seed });
+        let file = (prop_oneof![6 => 0usize..21, 1 => 100usize..105, 1 => 105usize..109], size_strategy(block, max_size), any::<u8>()).prop_map(|(which, size, seed)| FileSpec { which, size, seed });
         let req = (
             prop_oneof![8 => proptest::sample::select(RECOGNISED.iter().map(|r| r.1).collect::<Vec<u8>>()), 1 => any::<u8>()],
             prop_oneof![
@@ -468,6 +474,9 @@ pub fn run(tier: Tier) -> i32 {
             if c.requests.iter().any(|r| present.iter().any(|(id, size)| *id == r.id && r.offset as usize >= *size)) {
                 st.class("offset-at-or-after-eof");
             }
+            if files.iter().any(|f| f.which >= 105) {
+                st.class("stray-file-named-like-a-recognised-subdirectory");
+            }
             if files.iter().any(|f| f.which >= 100) {
                 st.class("unrelated-file-present");
             }
@@ -481,7 +490,7 @@ pub fn run(tier: Tier) -> i32 {
     drop(quiet);
     ctx.finish(
         stats,
-        "proptest: payload directories (any subset of the 21 recognised paths + unrelated files; sizes 0, 1, block-1, block, block+1, k*block, random; pseudo-random content) x block sizes 1..32768 (biased to 1, 2, 127..129, 254..257, 1024, 32768) x passwords x request scripts of 0..30 requests (announced, unannounced and never-recognised ids; offsets 0, block multiples, size-1, size, size+1, random, > 2^31; repeated and overlapping; optionally lacking id / offset / file container / TLV) ending in completion or abort. Oracle (reference codec on the client's packets): announcement = exactly the recognised files present with true sizes and the password; each good request answered once with id, offset and file[offset..min(offset+block,size)] bit-identical; bad requests end the upload with one error and no data; completion/abort acknowledged, trailing bytes unread. non-trivial = >= 2 recognised files and a request with offset > 0 whose block crosses end of file; distinct by the whole case",
+        "proptest: payload directories (any subset of the 21 recognised paths + unrelated files, among them plain files named like recognised subdirectories; sizes 0, 1, block-1, block, block+1, k*block, random; pseudo-random content) x block sizes 1..32768 (biased to 1, 2, 127..129, 254..257, 1024, 32768) x passwords x request scripts of 0..30 requests (announced, unannounced and never-recognised ids; offsets 0, block multiples, size-1, size, size+1, random, > 2^31; repeated and overlapping; optionally lacking id / offset / file container / TLV) ending in completion or abort. Oracle (reference codec on the client's packets): announcement = exactly the recognised files present with true sizes and the password; each good request answered once with id, offset and file[offset..min(offset+block,size)] bit-identical; bad requests end the upload with one error and no data; completion/abort acknowledged, trailing bytes unread. non-trivial = >= 2 recognised files and a request with offset > 0 whose block crosses end of file; distinct by the whole case",
         &["files are created in a fresh temporary directory per case and removed afterwards; stdout of the code under test is redirected to /dev/null during the run", "my own copy of the 21-entry file-id table (RECOGNISED)"],
         false,
     )
